@@ -93,8 +93,10 @@ struct p2_world {
 	ext2_filsys fs;
 	struct ext2_super_block *sb;
 	unsigned char *buf;
+	unsigned off;
 	struct ext2_dir_entry *dirent;
 	struct problem_context pctx;
+	unsigned char b0;		/* initial value of byte IN.k of the scan buffer */
 };
 
 /* what check_dir_block has established about the entry at `o` of block `b` (see the top of this file) */
@@ -108,12 +110,12 @@ static int p2_callsite_ok(const unsigned char *b, unsigned o)
 	return o + rec <= P2_BS && rec >= 12u && (rec & 3u) == 0 && P2F_NEED(P2F_NL(b, o)) <= rec;
 }
 
-static void p2_setup(struct p2_world *w, int mode)
+static void p2_setup(struct p2_world *w, int mode, unsigned off)
 {
 	w->ctx = malloc(sizeof(*w->ctx));
 	w->fs = malloc(sizeof(*w->fs));
 	w->sb = malloc(sizeof(*w->sb));
-	w->buf = malloc(P2_BS);
+	w->buf = malloc(P2_ALLOC);	/* second half: arbitrary contents */
 	ASSUME(w->ctx && w->fs && w->sb && w->buf);
 	memcpy(w->buf, IN.blk, P2_BS);
 	w->fs->super = w->sb;
@@ -124,16 +126,17 @@ static void p2_setup(struct p2_world *w, int mode)
 	w->ctx->inode_dir_map = (ext2fs_inode_bitmap) &p2_tag_dir;
 	w->ctx->inode_reg_map = (ext2fs_inode_bitmap) &p2_tag_reg;
 	w->ctx->inode_bad_map = IN.have_bad_map ? (ext2fs_inode_bitmap) &p2_tag_bad : 0;
-	ASSUME(IN.off <= P2_BS - 12u);
-	w->dirent = (struct ext2_dir_entry *) (w->buf + IN.off);
+	w->off = off;
+	w->dirent = (struct ext2_dir_entry *) (w->buf + off);
 	memset(&w->pctx, 0, sizeof(w->pctx));
 	w->pctx.ino = IN.ino;
 	w->pctx.dirent = w->dirent;
-	w->pctx.num = IN.off;
+	w->pctx.num = off;
 	p2_mode = mode;
 	p2_nlog = p2_nserious = p2_nchoice = 0;
 	p2_dotdot_calls = 0;
-	ASSUME(IN.k < P2_BS);
+	ASSUME(IN.k < P2_ALLOC);
+	w->b0 = w->buf[IN.k];
 }
 
 /* forget what was logged so far (between the two runs of a convergence harness) */
